@@ -1,1 +1,280 @@
-// image builder (C04) - filled in later
+//! Independent image builder: serialises a layout description (produced by
+//! the TLA+ layout / deviation / corruption generators, spec/Gen_Layout.tla)
+//! to the bytes of an MS-CFB file.  Shares no code with the `cfb` crate.
+//!
+//! The description uses the same symbolic cell values as the raw decoder
+//! (`indep.rs`): -1 FREE, -2 END, -3 FAT, -4 DIFAT, -5 INVALID; a few more
+//! negative codes stand for values TLC cannot hold in its 32-bit integers.
+//! Builder and decoder are cross-checked against each other on every image
+//! (the trace validator demands decode(build(lay)) to be well-formed and to
+//! abstract to the content the generator started from).
+
+use crate::dict::Dict;
+use serde_json::Value;
+
+pub fn cell_u32(v: i64) -> u32 {
+    match v {
+        -1 => 0xFFFF_FFFF,
+        -2 => 0xFFFF_FFFE,
+        -3 => 0xFFFF_FFFD,
+        -4 => 0xFFFF_FFFC,
+        -5 => 0xFFFF_FFFB,
+        -6 => 0xFFFF_FFFA, // MAX_REGULAR_SECTOR
+        -7 => 0x8000_0000,
+        -8 => 0x7FFF_FFFF,
+        x if x >= 0 => x as u32,
+        _ => 0xFFFF_FFF0,
+    }
+}
+
+fn size_u64(v: i64) -> u64 {
+    match v {
+        -7 => 0x8000_0000,
+        -10 => u64::MAX,
+        -11 => 1u64 << 32,
+        -12 => 0xFFFF_FFFF,
+        -13 => (1u64 << 32) + 100, // V3 readers mask this to 100
+        x if x >= 0 => x as u64,
+        _ => 0x7FFF_FFFF_FFFF_FFFF,
+    }
+}
+
+fn put_u16(b: &mut [u8], o: usize, v: u16) {
+    b[o..o + 2].copy_from_slice(&v.to_le_bytes());
+}
+fn put_u32(b: &mut [u8], o: usize, v: u32) {
+    b[o..o + 4].copy_from_slice(&v.to_le_bytes());
+}
+fn put_u64(b: &mut [u8], o: usize, v: u64) {
+    b[o..o + 8].copy_from_slice(&v.to_le_bytes());
+}
+fn ints(v: &Value) -> Vec<i64> {
+    v.as_array().map(|a| a.iter().map(|x| x.as_i64().unwrap_or(-1)).collect()).unwrap_or_default()
+}
+fn unlimbs(v: &Value) -> u64 {
+    let a = v[0].as_i64().unwrap_or(0);
+    if a < 0 {
+        return 0;
+    }
+    ((a as u64) << 44) | ((v[1].as_u64().unwrap_or(0)) << 22) | v[2].as_u64().unwrap_or(0)
+}
+fn hex_bytes(s: &str) -> Vec<u8> {
+    (0..s.len() / 2).map(|i| u8::from_str_radix(&s[2 * i..2 * i + 2], 16).unwrap_or(0)).collect()
+}
+
+fn slot_bytes(s: &Value, dict: &Dict) -> [u8; 128] {
+    let mut e = [0u8; 128];
+    let ty = s["type"].as_i64().unwrap_or(0);
+    let name_id = s["name"].as_str().unwrap_or("");
+    let name: String = if let Some(raw) = s["rawname"].as_str() { raw.to_string() } else { dict.str_of(name_id) };
+    let units: Vec<u16> = name.encode_utf16().take(32).collect();
+    let n = units.len().min(32);
+    if ty != 0 || !name.is_empty() {
+        for (i, u) in units.iter().enumerate().take(32) {
+            put_u16(&mut e, 2 * i, *u);
+        }
+        let nlen = s["nlen"].as_i64().unwrap_or(2 * (n as i64 + 1));
+        put_u16(&mut e, 64, nlen as u16);
+        if s["unterminated"].as_bool() == Some(true) && n < 32 {
+            put_u16(&mut e, 2 * n, 0x41);
+        }
+    }
+    e[66] = ty as u8;
+    e[67] = s["color"].as_i64().unwrap_or(0) as u8;
+    put_u32(&mut e, 68, cell_u32(s["left"].as_i64().unwrap_or(-1)));
+    put_u32(&mut e, 72, cell_u32(s["right"].as_i64().unwrap_or(-1)));
+    put_u32(&mut e, 76, cell_u32(s["child"].as_i64().unwrap_or(-1)));
+    // CLSID: canonical text order -> u32le, u16le, u16le, 8 bytes
+    let c = hex_bytes(s["clsid"].as_str().unwrap_or(""));
+    if c.len() == 16 {
+        let o = [3, 2, 1, 0, 5, 4, 7, 6, 8, 9, 10, 11, 12, 13, 14, 15];
+        for (i, &j) in o.iter().enumerate() {
+            e[80 + j] = c[i];
+        }
+    }
+    let bits = u32::from_str_radix(s["bits"].as_str().unwrap_or("0"), 16).unwrap_or(0);
+    put_u32(&mut e, 96, bits);
+    put_u64(&mut e, 100, unlimbs(&s["ct"]));
+    put_u64(&mut e, 108, unlimbs(&s["mt"]));
+    put_u32(&mut e, 116, cell_u32(s["start"].as_i64().unwrap_or(0)));
+    put_u64(&mut e, 120, size_u64(s["size"].as_i64().unwrap_or(0)));
+    e
+}
+
+pub fn build_image(lay: &Value, dict: &Dict) -> Vec<u8> {
+    let ver = lay["ver"].as_u64().unwrap_or(3);
+    let slen: usize = if ver == 3 { 512 } else { 4096 };
+    let per = slen / 4;
+    let nsec = lay["nsec"].as_u64().unwrap_or(0) as usize;
+    let junk = lay["junk"].as_u64().unwrap_or(0xEE) as u8;
+    let mut b = vec![junk; (nsec + 1) * slen];
+    let sec_off = |s: i64| -> Option<usize> {
+        if s >= 0 && (s as usize) < nsec {
+            Some((s as usize + 1) * slen)
+        } else {
+            None
+        }
+    };
+    let fatsecs = ints(&lay["fatsecs"]);
+    let difatsecs = ints(&lay["difatsecs"]);
+    let dirsecs = ints(&lay["dirsecs"]);
+    let mfsecs = ints(&lay["mfsecs"]);
+    let rootsecs = ints(&lay["rootsecs"]);
+    let h = &lay["hdr"];
+    let geti = |k: &str, d: i64| -> i64 { h[k].as_i64().unwrap_or(d) };
+
+    // ---- header ----
+    for x in b[..slen.min(512)].iter_mut() {
+        *x = 0;
+    }
+    if slen > 512 {
+        for x in b[512..slen].iter_mut() {
+            *x = if h["pad_nonzero"].as_bool() == Some(true) { 0x5A } else { 0 };
+        }
+    }
+    let magic = hex_bytes(h["magic"].as_str().unwrap_or("d0cf11e0a1b11ae1"));
+    b[..8].copy_from_slice(&magic[..8]);
+    if h["clsid_nonzero"].as_bool() == Some(true) {
+        b[8] = 1;
+    }
+    put_u16(&mut b, 24, geti("minor", 0x3E) as u16);
+    put_u16(&mut b, 26, geti("major", ver as i64) as u16);
+    put_u16(&mut b, 28, geti("bom", 0xFFFE) as u16);
+    put_u16(&mut b, 30, geti("sshift", if ver == 3 { 9 } else { 12 }) as u16);
+    put_u16(&mut b, 32, geti("mshift", 6) as u16);
+    if h["resv_nonzero"].as_bool() == Some(true) {
+        b[36] = 1;
+    }
+    put_u32(&mut b, 40, cell_u32(geti("ndir", if ver == 4 { dirsecs.len() as i64 } else { 0 })));
+    put_u32(&mut b, 44, cell_u32(geti("nfat", fatsecs.len() as i64)));
+    put_u32(&mut b, 48, cell_u32(geti("first_dir", dirsecs.first().copied().unwrap_or(-2))));
+    put_u32(&mut b, 52, cell_u32(geti("txn", 0)));
+    put_u32(&mut b, 56, cell_u32(geti("cutoff", 4096)));
+    put_u32(&mut b, 60, cell_u32(geti("first_minifat", mfsecs.first().copied().unwrap_or(-2))));
+    put_u32(&mut b, 64, cell_u32(geti("nminifat", mfsecs.len() as i64)));
+    put_u32(&mut b, 68, cell_u32(geti("first_difat", difatsecs.first().copied().unwrap_or(-2))));
+    put_u32(&mut b, 72, cell_u32(geti("ndifat", difatsecs.len() as i64)));
+    let hdr_difat: Vec<i64> = if h["difat"].is_array() { ints(&h["difat"]) } else { fatsecs.iter().take(109).copied().collect() };
+    for i in 0..109 {
+        put_u32(&mut b, 76 + 4 * i, cell_u32(hdr_difat.get(i).copied().unwrap_or(-1)));
+    }
+
+    // ---- DIFAT sectors ----
+    let difat_ext: Vec<i64> = if lay["difat_ext"].is_array() { ints(&lay["difat_ext"]) } else { fatsecs.iter().skip(109).copied().collect() };
+    let difat_pad = lay["difat_pad"].as_i64().unwrap_or(-1);
+    let difat_end = lay["difat_end"].as_i64().unwrap_or(-2);
+    for (k, &ds) in difatsecs.iter().enumerate() {
+        if let Some(o) = sec_off(ds) {
+            for i in 0..(per - 1) {
+                let v = difat_ext.get(k * (per - 1) + i).copied().unwrap_or(difat_pad);
+                put_u32(&mut b, o + 4 * i, cell_u32(v));
+            }
+            let next = difatsecs.get(k + 1).copied().unwrap_or(difat_end);
+            put_u32(&mut b, o + slen - 4, cell_u32(next));
+        }
+    }
+
+    // ---- FAT sectors ----
+    let fat = ints(&lay["fat"]);
+    let fat_pad = lay["fat_pad"].as_i64().unwrap_or(-1);
+    for (k, &fs) in fatsecs.iter().enumerate() {
+        if let Some(o) = sec_off(fs) {
+            for i in 0..per {
+                let v = fat.get(k * per + i).copied().unwrap_or(fat_pad);
+                put_u32(&mut b, o + 4 * i, cell_u32(v));
+            }
+        }
+    }
+
+    // ---- directory sectors ----
+    let dirper = slen / 128;
+    let empty: Vec<Value> = Vec::new();
+    let slots = lay["slots"].as_array().unwrap_or(&empty);
+    let blank = serde_json::json!({"name": "", "type": 0, "color": 0, "left": -1, "right": -1, "child": -1,
+                                   "clsid": "", "bits": "0", "ct": [0,0,0], "mt": [0,0,0], "start": 0, "size": 0});
+    for (k, &ds) in dirsecs.iter().enumerate() {
+        if let Some(o) = sec_off(ds) {
+            for i in 0..dirper {
+                let s = slots.get(k * dirper + i).unwrap_or(&blank);
+                let e = slot_bytes(s, dict);
+                b[o + 128 * i..o + 128 * (i + 1)].copy_from_slice(&e);
+            }
+        }
+    }
+
+    // ---- MiniFAT sectors ----
+    let minifat = ints(&lay["minifat"]);
+    let mf_pad = lay["minifat_pad"].as_i64().unwrap_or(-1);
+    for (k, &ms) in mfsecs.iter().enumerate() {
+        if let Some(o) = sec_off(ms) {
+            for i in 0..per {
+                let v = minifat.get(k * per + i).copied().unwrap_or(mf_pad);
+                put_u32(&mut b, o + 4 * i, cell_u32(v));
+            }
+        }
+    }
+
+    // ---- stream data ----
+    if let Some(ds) = lay["data"].as_array() {
+        for d in ds {
+            if let Some(o) = sec_off(d["sec"].as_i64().unwrap_or(-1)) {
+                let f = d["fill"].as_u64().unwrap_or(0) as u8;
+                for x in b[o..o + slen].iter_mut() {
+                    *x = f;
+                }
+            }
+        }
+    }
+    let miniper = slen / 64;
+    for &rs in rootsecs.iter() {
+        if let Some(o) = sec_off(rs) {
+            for x in b[o..o + slen].iter_mut() {
+                *x = 0xCD;
+            }
+        }
+    }
+    if let Some(ms) = lay["minidata"].as_array() {
+        for d in ms {
+            let m = d["mini"].as_i64().unwrap_or(-1);
+            if m < 0 {
+                continue;
+            }
+            let m = m as usize;
+            if let Some(&rs) = rootsecs.get(m / miniper) {
+                if let Some(o) = sec_off(rs) {
+                    let f = d["fill"].as_u64().unwrap_or(0) as u8;
+                    let st = o + (m % miniper) * 64;
+                    for x in b[st..st + 64].iter_mut() {
+                        *x = f;
+                    }
+                }
+            }
+        }
+    }
+
+    // ---- raw byte patches (corruptions below the field level) ----
+    if let Some(ps) = lay["patch"].as_array() {
+        for p in ps {
+            let off = p["off"].as_u64().unwrap_or(0) as usize;
+            for (i, v) in ints(&p["bytes"]).iter().enumerate() {
+                if off + i < b.len() {
+                    b[off + i] = *v as u8;
+                }
+            }
+        }
+    }
+
+    // ---- truncation / extension ----
+    let delta = lay["flen_delta"].as_i64().unwrap_or(0);
+    if delta < 0 {
+        let cut = (-delta) as usize;
+        let n = b.len().saturating_sub(cut);
+        b.truncate(n);
+    } else if delta > 0 {
+        b.extend(std::iter::repeat(junk).take(delta as usize));
+    }
+    if let Some(n) = lay["flen_abs"].as_u64() {
+        b.resize(n as usize, junk);
+    }
+    b
+}
